@@ -252,3 +252,53 @@ func VxC12_Bandwidth() {
 	m := vx.Ite(d.sd < iqr, d.sd, iqr)
 	vx.Assert(vx.Close(BandwidthScott(d), 1.06*m*pw, 1e-12, 1e-15), "Scott: 1.06*min(s, IQR/1.349)*n^(-1/5)")
 }
+
+// VxC12_BoundsPoints: KDE.Bounds on concrete samples: a finite interval inside the boundaries that
+// holds at least 98% of the mass, for each kernel and boundary configuration. Concrete evaluations
+// carried by the interpreter (Bounds is two expansion loops and two bisections whose trip counts
+// depend on the data: symbolic data would fork at every iteration) - no quantification is claimed.
+// C12: "Bounds returns a finite interval inside the boundaries holding at least 98% of the mass".
+//
+//vx:mode FP
+//vx:maxsteps 400000000
+//vx:bound samples {0}, {1,2,4}, {-3,-3,5,100} (weights none or {1,2,3,..}), kernels Gaussian / Epanechnikov / delta, bandwidth 0.5 or 4, boundaries: none, [min-1, +Inf), (-Inf, max+0.5], [min-1, max+0.5]
+//vx:outside every other sample (no quantification: concrete points only)
+func VxC12_BoundsPoints() {
+	data := [][]float64{{0}, {1, 2, 4}, {-3, -3, 5, 100}}[vx.Choose("data", 0, 2)]
+	xs := append([]float64(nil), data...)
+	var ws []float64
+	if vx.Choose("weighted", 0, 1) == 1 {
+		for i := range xs {
+			ws = append(ws, float64(i+1))
+		}
+	}
+	kernel := KDEKernel(vx.Choose("kernel", 0, 2))
+	h := []float64{0.5, 4}[vx.Choose("h", 0, 1)]
+	kde := &KDE{Sample: Sample{Xs: xs, Weights: ws}, Kernel: kernel, Bandwidth: h}
+	lo, hi := data[0], data[0]
+	for _, x := range data {
+		lo, hi = math.Min(lo, x), math.Max(hi, x)
+	}
+	bmin, bmax := math.Inf(-1), math.Inf(1)
+	switch vx.Choose("boundary", 0, 3) {
+	case 1:
+		kde.BoundaryMethod, bmin = BoundaryReflect, lo-1
+	case 2:
+		kde.BoundaryMethod, bmax = BoundaryReflect, hi+0.5
+	case 3:
+		kde.BoundaryMethod, bmin, bmax = BoundaryReflect, lo-1, hi+0.5
+	}
+	if kde.BoundaryMethod == BoundaryReflect {
+		kde.BoundaryMin, kde.BoundaryMax = bmin, bmax
+	}
+	vx.Freeze(xs, ws)
+	l, u := kde.Bounds()
+	vx.Thaw()
+	vx.Assert(!math.IsNaN(l) && !math.IsNaN(u) && !math.IsInf(l, 0) && !math.IsInf(u, 0) && l <= u, "Bounds returns a finite interval")
+	vx.Assert(bmin <= l && u <= bmax, "Bounds lies inside the boundaries")
+	below := kde.CDF(l)
+	if kernel == DeltaKernel {
+		below = kde.CDF(l - 1e-9) // atoms: the closed interval [l,u] includes a sample sitting on l
+	}
+	vx.Assert(kde.CDF(u)-below >= 0.98, "Bounds holds at least 98% of the mass")
+}
